@@ -114,13 +114,19 @@ static void post_oracles(const Plan& p, const ExecOpts& eo, RunResult& r) {
       }
     }
 }
-static void leak_oracle(const ExecOpts& eo, RunResult& r);
-static RunResult run_plan(const Plan& p, const ExecOpts& eo) { RunResult r; { Executor ex(p, eo); r = ex.run(); } post_oracles(p, eo, r); leak_oracle(eo, r); return r; }
+static void leak_oracle(const ExecOpts& eo, RunResult& r, const Plan& p);
+static RunResult run_plan(const Plan& p, const ExecOpts& eo) { RunResult r; { Executor ex(p, eo); r = ex.run(); } post_oracles(p, eo, r); leak_oracle(eo, r, p); return r; }
 
 extern "C" int __lsan_do_recoverable_leak_check() __attribute__((weak));
-static void leak_oracle(const ExecOpts& eo, RunResult& r) {
+static void leak_oracle(const ExecOpts& eo, RunResult& r, const Plan& p) {
   if (!__lsan_do_recoverable_leak_check || !eo.want("C13")) return;
-  if (__lsan_do_recoverable_leak_check() != 0) { Violation v; v.prop = "C13"; v.oracle = "leak"; v.detail = "LeakSanitizer reports memory that became unreachable during this run"; r.viol.push_back(v); }
+  if (__lsan_do_recoverable_leak_check() != 0) {
+    Violation v; v.prop = "C13"; v.oracle = "leak"; v.detail = "LeakSanitizer reports memory that became unreachable during this run";
+    // context: which reader ran last in this plan (kind of file, rational or real parser, whole-file or chunked stream)
+    for (auto& o : p.ops) if (o.name == "file" && (o.get("do") == "read" || o.get("do") == "streamread")) {
+      v.ctx["reader"] = o.has("kind") ? o.get("kind") : (o.get("ext") == ".mps" ? "mps" : o.get("ext") == ".lp" ? "lp" : o.get("ext"));
+      v.ctx["rational"] = o.has("rational") ? o.get("rational") : "?"; v.ctx["via"] = o.get("do"); }
+    r.viol.push_back(v); }
 }
 static double now_s() { return std::chrono::duration<double>(std::chrono::steady_clock::now().time_since_epoch()).count(); }
 
